@@ -156,4 +156,20 @@ def h5pyDtype (table : List (String × String)) : DtypeVal → Option DTypeArg
     | some ⟨.string, _⟩ => some .numpyText
     | some ⟨t, _⟩ => some (.nix t)
 
+/-- the type code of an element type (`np.dtype(t).str` without the byte-order character) -/
+def typeCode : DType → String
+  | .uint8 => "u1" | .uint16 => "u2" | .uint32 => "u4" | .uint64 => "u8"
+  | .int8 => "i1" | .int16 => "i2" | .int32 => "i4" | .int64 => "i8"
+  | .float32 => "f4" | .float64 => "f8" | .bool => "b1" | .string => "U"
+
+/-- h5py's `dataset.dtype` of a stored array: the NumPy dtype object of a numeric / boolean dataset, the
+variable-length string dtype of a text dataset -/
+def storedDtype (t : DType) : DtypeVal :=
+  if t = .string then .vlenStr else .spelled (.dtypeObj none (typeCode t))
+
+/-- `dtype == util.vlen_str_dtype` (a NumPy dtype of a number is never equal to it) -/
+def DtypeVal.isVlenStr : DtypeVal → Bool
+  | .vlenStr => true
+  | .spelled _ => false
+
 end Nix.NdSpell
